@@ -19,25 +19,29 @@ POOL = ["A", "YIELD", "YLD", "FROM", "FRM", "INTU.BID", "X.YIELD", "B"]
 
 
 class OTreeArg(Arg):
-    def __init__(self, k, name="elem"):
-        self.name = name; self.k = k
+    def __init__(self, k, name="elem", grand=False):
+        self.name = name; self.k = k; self.grand = grand
 
     def make(self, it):
         self.it = it
         O.install(it)
         w = O.World()
-        return O.make_tree(w, self.k)
+        return O.make_tree(w, self.k, grand=self.grand)
 
-    def build(self, tags):
+    def build(self, tags, gtags=None):
+        """the i-th child carries its number in its text ('t<i>'); with grand, even children are aggregates holding
+        one grandchild and carry their number in the attribute-free way: the grandchild's text 'g<i>'"""
         root = ET.Element("ROOT")
         for i, t in enumerate(tags):
-            c = ET.SubElement(root, t); c.text = f"t{i}"
-            if i % 2:
-                ET.SubElement(c, "YIELD").text = "w"
+            c = ET.SubElement(root, t)
+            if self.grand and i % 2 == 0:
+                ET.SubElement(c, (gtags or {}).get(i, "YIELD")).text = f"g{i}"
+            else:
+                c.text = f"t{i}"
         return root
 
     def samples(self, rng, n):
-        return [self.build([rng.choice(POOL) for _ in range(self.k)]) for _ in range(max(n, 8))]
+        return [self.build([rng.choice(POOL) for _ in range(self.k)], {i: rng.choice(POOL) for i in range(self.k)}) for _ in range(max(n, 8))]
 
     def concretize(self, model, value):
         import z3
@@ -53,13 +57,28 @@ class OTreeArg(Arg):
                 except Exception:
                     pass
             tags.append(pick or f"T{i}")
-        return self.build(tags)
+        gtags = {}
+        for i, kid in enumerate(value.kids):
+            for g in kid.kids:
+                for lit in POOL:
+                    try:
+                        if z3.is_true(model.eval(g.tag.e == it.lit(lit), model_completion=True)):
+                            gtags[i] = lit
+                    except Exception:
+                        pass
+                gtags.setdefault(i, f"G{i}")
+        return self.build(tags, gtags)
 
 
 def view(kids, native):
+    from contracts.spec.groom import kids_of, _kids_model
     if native:
-        return [(c.tag, int(c.text[1:])) for c in kids]
-    return [(c.tag, int(c.label[1:].rstrip("'^"))) for c in kids]
+        return kids_of(kids)
+
+    class _E:
+        pass
+    e = _E(); e.kids = kids
+    return _kids_model(None, [e], {})
 
 
 def call_hook(fnname, clsname):
@@ -78,18 +97,18 @@ def call_hook(fnname, clsname):
 
 CONTRACTS = []
 for clsname in ["Aggregate", "MFINFO", "STOCKINFO", "MAIL"]:
-    for k in range(0, 5):
-        tier = "quick" if k <= 3 else "thorough"
-        CONTRACTS.append(Contract("ofxtools.models.base:Aggregate.groom", args=[OTreeArg(k)], call=call_hook("groom", clsname),
+    for k, grand in [(0, False), (1, False), (2, False), (3, False), (4, False), (1, True), (2, True), (3, True)]:
+        tier = "quick" if k <= 3 and not (grand and k == 3) else "thorough"
+        CONTRACTS.append(Contract("ofxtools.models.base:Aggregate.groom", args=[OTreeArg(k, grand=grand)], call=call_hook("groom", clsname),
                                   ensures=[("C17-input-untouched", "result['input_writes'] == 0"),
                                            ("C07-result", f"result['kids'] == spec.groom.groomed({clsname!r}, spec.groom.kids_of(elem))"),
                                            ("aux-result-shares-nothing-with-the-input", "result['shared'] == 0")],
                                   aux=["aux-result-shares-nothing-with-the-input"],
-                                  notes=f"{clsname}.groom, {k} direct children with symbolic tags", props=["C17", "C07"], tier=tier, samples=40))
-        CONTRACTS.append(Contract("ofxtools.models.base:Aggregate.ungroom", args=[OTreeArg(k)], call=call_hook("ungroom", clsname),
+                                  notes=f"{clsname}.groom, {k} direct children with symbolic tags" + (", even children holding a grandchild with a symbolic tag" if grand else ""), props=["C17", "C07"], tier=tier, samples=40))
+        CONTRACTS.append(Contract("ofxtools.models.base:Aggregate.ungroom", args=[OTreeArg(k, grand=grand)], call=call_hook("ungroom", clsname),
                                   ensures=[("C07-result", f"result['kids'] == spec.groom.ungroomed({clsname!r}, spec.groom.kids_of(elem))")],
                                   modifies=["elem"],    # to_etree hands ungroom a tree it has just allocated: no frame is claimed
-                                  notes=f"{clsname}.ungroom, {k} direct children with symbolic tags", props=["C07", "C01"], tier=tier, samples=40))
+                                  notes=f"{clsname}.ungroom, {k} direct children with symbolic tags" + (", even children holding a grandchild with a symbolic tag" if grand else ""), props=["C07", "C01"], tier=tier, samples=40))
 
 
 # =============================================================================== Element.__set__ / __get__
